@@ -17,8 +17,10 @@ import (
 	wrapping "github.com/hashicorp/go-kms-wrapping/v2"
 	"github.com/hashicorp/nodeenrollment"
 	"github.com/hashicorp/nodeenrollment/registration"
+	"github.com/hashicorp/nodeenrollment/rotation"
 	"github.com/hashicorp/nodeenrollment/types"
 	vclock "github.com/hashicorp/nodeenrollment/zz_verif/vclock"
+	"google.golang.org/protobuf/encoding/protowire"
 	"google.golang.org/protobuf/proto"
 	"google.golang.org/protobuf/types/known/timestamppb"
 	"verif/engine"
@@ -29,7 +31,7 @@ const L = nodeenrollment.DefaultFetchCredentialsLifetime
 
 var offsets = []time.Duration{-2 * L, -L - 1, -L, -1, 0, 1, L, L + 1, 2 * L}
 var skews = []time.Duration{-time.Hour, -5 * time.Minute, -1, 0, 1, 5 * time.Minute, time.Hour}
-var modes = []string{"authorize", "fetch-authorized", "fetch-token", "fetch-wrapper"}
+var modes = []string{"authorize", "fetch-authorized", "fetch-token", "fetch-wrapper", "rotate-embedded"}
 
 type kase struct {
 	Kind  string        `json:"kind"` // window | mutate | field | honest
@@ -53,6 +55,7 @@ type world struct {
 	base map[string]*harness.MemStore // per mode
 	tok  *harness.Token
 	n1   []byte
+	n0   *harness.Enrolled // the enrolled node whose keys carry embedded requests (mode rotate-embedded)
 }
 
 func newWorld(seed int64) *world {
@@ -65,6 +68,11 @@ func newWorld(seed int64) *world {
 		switch m {
 		case "fetch-authorized":
 			if _, err := registration.AuthorizeNode(harness.Ctx, st, harness.SignedRequest(harness.Info(w.k, w.e, w.n1), w.k)); err != nil {
+				panic(err)
+			}
+		case "rotate-embedded":
+			var err error
+			if w.n0, err = harness.Enroll(st, harness.NewCertKey("K0", seed), harness.NewEncKey("E0", seed), harness.Bytes("n0", 32), nil, nil); err != nil {
 				panic(err)
 			}
 		case "fetch-token":
@@ -103,7 +111,16 @@ func (w *world) call(mode string, req *types.FetchNodeCredentialsRequest, opt ..
 				panicked = fmt.Sprint(p)
 			}
 		}()
-		if mode == "authorize" {
+		if mode == "rotate-embedded" {
+			// the request travels inside a rotation envelope made with an enrolled node's keys
+			ct, eerr := nodeenrollment.EncryptMessage(harness.Ctx, req, w.n0.Creds)
+			if eerr != nil {
+				panic(eerr)
+			}
+			var resp *types.RotateNodeCredentialsResponse
+			resp, err = rotation.RotateNodeCredentials(harness.Ctx, st, &types.RotateNodeCredentialsRequest{CertificatePublicKeyPkix: w.n0.K.Pkix, EncryptedFetchNodeCredentialsRequest: ct}, opt...)
+			ok = err == nil && resp != nil
+		} else if mode == "authorize" {
 			var n *types.NodeInformation
 			n, err = registration.AuthorizeNode(harness.Ctx, st, req, opt...)
 			ok = err == nil && n != nil
@@ -116,7 +133,85 @@ func (w *world) call(mode string, req *types.FetchNodeCredentialsRequest, opt ..
 	calls = st.Calls
 	writes = len(st.Writes())
 	proceeded = calls > 0 || err == nil
+	if mode == "rotate-embedded" {
+		// the envelope is opened with a stored record before the embedded
+		// request can be validated: processing shows as a write or a success
+		proceeded = writes > 0 || err == nil
+	}
 	return
+}
+
+// records splits a serialized message into its top-level field records.
+func records(b []byte) [][]byte {
+	var out [][]byte
+	for len(b) > 0 {
+		_, typ, n := protowire.ConsumeTag(b)
+		if n < 0 {
+			return nil
+		}
+		m := protowire.ConsumeFieldValue(0, typ, b[n:])
+		if m < 0 {
+			return nil
+		}
+		out = append(out, b[:n+m])
+		b = b[n+m:]
+	}
+	return out
+}
+
+// reencode returns bytes that differ from b but decode to the same message:
+// two neighbouring field records swapped, all records reversed, or the length
+// prefix of one length-delimited record written as a non-minimal varint.
+func reencode(b []byte, kind string, i int) []byte {
+	recs := records(b)
+	var out []byte
+	switch kind {
+	case "reencode-swap":
+		if i+1 >= len(recs) {
+			return nil
+		}
+		// swapping two records of the same field number would change which one wins
+		n1, _, _ := protowire.ConsumeTag(recs[i])
+		n2, _, _ := protowire.ConsumeTag(recs[i+1])
+		if n1 == n2 {
+			return nil
+		}
+		recs[i], recs[i+1] = recs[i+1], recs[i]
+	case "reencode-reverse":
+		if i != 0 || len(recs) < 2 {
+			return nil
+		}
+		for l, r := 0, len(recs)-1; l < r; l, r = l+1, r-1 {
+			recs[l], recs[r] = recs[r], recs[l]
+		}
+	case "reencode-overlong-length":
+		if i >= len(recs) {
+			return nil
+		}
+		num, typ, n := protowire.ConsumeTag(recs[i])
+		if typ != protowire.BytesType {
+			return nil
+		}
+		v, m := protowire.ConsumeVarint(recs[i][n:])
+		body := recs[i][n+m:]
+		var rec []byte
+		rec = protowire.AppendTag(rec, num, typ)
+		// the same length in one byte more than needed
+		for x := v; ; x >>= 7 {
+			if x < 0x80 {
+				rec = append(rec, byte(x)|0x80, 0x00)
+				break
+			}
+			rec = append(rec, byte(x)|0x80)
+		}
+		recs[i] = append(rec, body...)
+	default:
+		return nil
+	}
+	for _, r := range recs {
+		out = append(out, r...)
+	}
+	return out
 }
 
 func flip(b []byte, bit int) []byte {
@@ -196,6 +291,20 @@ func (w *world) one(k kase, r *engine.Report) (string, string) {
 		case strings.HasPrefix(k.Mut, "trunc-sig:"):
 			fmt.Sscanf(k.Mut, "trunc-sig:%d", &a)
 			m.BundleSignature = m.BundleSignature[:a]
+		case strings.HasPrefix(k.Mut, "reencode-"):
+			// a different byte string that decodes to the very same message
+			var kind string
+			fmt.Sscanf(strings.Replace(k.Mut, ":", " ", 1), "%s %d", &kind, &a)
+			alt := reencode(m.Bundle, kind, a)
+			if alt == nil {
+				return "", ""
+			}
+			chk := new(types.FetchNodeCredentialsInfo)
+			orig := new(types.FetchNodeCredentialsInfo)
+			if proto.Unmarshal(alt, chk) != nil || proto.Unmarshal(m.Bundle, orig) != nil || !proto.Equal(chk, orig) || string(alt) == string(m.Bundle) {
+				return "harness:reencode", fmt.Sprintf("[%s] %s is not an equivalent re-encoding (harness error)", k.Mode, k.Mut)
+			}
+			m.Bundle = alt
 		case k.Mut == "swap-sig":
 			m.BundleSignature = other.BundleSignature
 		case k.Mut == "swap-bundle":
@@ -320,6 +429,11 @@ func (w *world) cases(c *engine.Ctx, emit func(kase)) {
 		for n := 0; n < len(req.BundleSignature); n++ {
 			emit(kase{Kind: "mutate", Mode: mode, Mut: fmt.Sprintf("trunc-sig:%d", n), Seed: c.Seed})
 		}
+		for i := 0; i < 12; i++ {
+			emit(kase{Kind: "mutate", Mode: mode, Mut: fmt.Sprintf("reencode-swap:%d", i), Seed: c.Seed})
+			emit(kase{Kind: "mutate", Mode: mode, Mut: fmt.Sprintf("reencode-overlong-length:%d", i), Seed: c.Seed})
+		}
+		emit(kase{Kind: "mutate", Mode: mode, Mut: "reencode-reverse:0", Seed: c.Seed})
 		for _, m := range []string{"swap-sig", "swap-bundle", "sig-by-other-key"} {
 			emit(kase{Kind: "mutate", Mode: mode, Mut: m, Seed: c.Seed})
 		}
@@ -375,9 +489,9 @@ func init() {
 	engine.Register(&engine.CheckDef{
 		ID:    "C03",
 		Level: "exploration",
-		Rule: "through AuthorizeNode and FetchNodeCredentials in three enrollment modes (record, token, wrapper): window placements (NotBefore, NotAfter) relative to now from {-2L,-L-1ns,-L,-1ns,0,+1ns,+L,+L+1ns,+2L}^2 x skew pairs from {-1h,-5m,-1ns,0,1ns,5m,1h}^2 under a frozen and a ticking clock; every single-bit flip and every truncation of bundle and of signature, swapped signature/bundle, signature by another key; 11 missing-field / wrong-key-type variants; node-created requests used at {-1ns,0,1ns,L/2,L-1ns,L+1ns,2L} after creation; " +
+		Rule: "through AuthorizeNode, FetchNodeCredentials in three enrollment modes (record, token, wrapper) and RotateNodeCredentials (the request embedded in an enrolled node's rotation envelope): window placements (NotBefore, NotAfter) relative to now from {-2L,-L-1ns,-L,-1ns,0,+1ns,+L,+L+1ns,+2L}^2 x skew pairs from {-1h,-5m,-1ns,0,1ns,5m,1h}^2 under a frozen and a ticking clock; every single-bit flip and every truncation of bundle and of signature, equivalent re-encodings of the bundle (neighbouring field records swapped, all reversed, non-minimal length varints), swapped signature/bundle, signature by another key; 11 missing-field / wrong-key-type variants; node-created requests used at {-1ns,0,1ns,L/2,L-1ns,L+1ns,2L} after creation; " +
 			"distinct_nontrivial counts cases (distinct by construction) except exact ties between now and a widened window end, on which the property is silent",
-		Assumptions: []string{"random multi-byte mutations are sampling and are not claimed; all single-bit flips and truncations are enumerated", "'processed past validation' is observed as any storage call or a success: validation itself is storage-free", "exact ties are not judged"},
+		Assumptions: []string{"random multi-byte mutations are sampling and are not claimed; all single-bit flips and truncations are enumerated", "'processed past validation' is observed as any storage call or a success: validation itself is storage-free (embedded in a rotation: as a storage write or a success, the envelope being opened with a stored record first)", "exact ties are not judged"},
 		Shards:      func(c *engine.Ctx) int { return 16 },
 		Run:         run,
 		Replay:      replay,
